@@ -69,3 +69,177 @@ def h_order4(b0: bool, b1: bool, b2: bool, b3: bool, b4: bool, b5: bool,
     bits = [b0, b1, b2, b3, b4, b5, b6, b7, b8, b9, b10, b11]
     ok = _order_ok(4, bits)
     return hx.verdict(ok, any(bits))
+
+
+# ---------------------------------------------------------------------------------------
+# (b) EvolutionGraph over fake app modules
+
+import sys
+import types
+
+import django_evolution.utils.graph as graphmod
+import django_evolution.utils.evolutions as evomod
+from django_evolution.models import Evolution
+from django_evolution.utils.graph import EvolutionGraph, CircularDependencyError
+
+N_APPS = 3
+
+
+class _FakeApps(object):
+    """Installs fake app modules vfa0..vfa2 (models module, evolutions package, one module per
+    evolution label) and makes get_app_label/get_app_name answer for them."""
+
+    def __init__(self, specs):
+        self.specs = specs          # per app: {'labels': [...], 'app_deps': {...}, 'evo_deps': {label: {...}}}
+        self.apps = []
+
+    def __enter__(self):
+        self.saved_modules = {}
+        self.saved = {}
+        for i, spec in enumerate(self.specs):
+            name = 'vfa%d' % i
+            app = types.ModuleType(name + '.models')
+            app._v_label = name
+            self.apps.append(app)
+            evo = types.ModuleType(name + '.evolutions')
+            evo.SEQUENCE = list(spec['labels'])
+            for k, v in spec['app_deps'].items():
+                setattr(evo, k, list(v))
+            mods = {name: types.ModuleType(name), name + '.models': app, name + '.evolutions': evo}
+            for label in spec['labels']:
+                m = types.ModuleType('%s.evolutions.%s' % (name, label))
+                m.MUTATIONS = []
+                for k, v in spec['evo_deps'].get(label, {}).items():
+                    setattr(m, k, list(v))
+                mods['%s.evolutions.%s' % (name, label)] = m
+            for k, v in mods.items():
+                self.saved_modules[k] = sys.modules.get(k)
+                sys.modules[k] = v
+        for mod, attr in ((graphmod, 'get_app_label'), (evomod, 'get_app_label'),
+                          (evomod, 'get_app_name')):
+            self.saved[(mod, attr)] = getattr(mod, attr)
+            setattr(mod, attr, lambda app: app._v_label)
+        return self
+
+    def __exit__(self, *a):
+        for (mod, attr), v in self.saved.items():
+            setattr(mod, attr, v)
+        for k, v in self.saved_modules.items():
+            if v is None:
+                sys.modules.pop(k, None)
+            else:
+                sys.modules[k] = v
+        return False
+
+
+def _dep(kind, from_app, to_app, to_label_i):
+    """kind 0 none; 1 AFTER_EVOLUTIONS (app, label); 2 AFTER_EVOLUTIONS app; 3 BEFORE_EVOLUTIONS
+    (app, label); 4 BEFORE_EVOLUTIONS app."""
+    target_app = 'vfa%d' % to_app
+    label = ['e1', 'e2'][to_label_i]
+    if kind == 1:
+        return {'AFTER_EVOLUTIONS': [(target_app, label)]}
+    if kind == 2:
+        return {'AFTER_EVOLUTIONS': [target_app]}
+    if kind == 3:
+        return {'BEFORE_EVOLUTIONS': [(target_app, label)]}
+    if kind == 4:
+        return {'BEFORE_EVOLUTIONS': [target_app]}
+    return {}
+
+
+def _graph_order(n0, n1, n2, d_kind, d_level, d_from, d_to, d_label, d_on, order, applied_mask):
+    """Build the graph the way EvolveAppTask._build_evolutions_graph does and return the flattened
+    order of evolution keys, or raise."""
+    counts = [n0, n1, n2]
+    specs = []
+    for i in range(N_APPS):
+        labels = ['e1', 'e2'][:counts[i]]
+        spec = {'labels': labels, 'app_deps': {}, 'evo_deps': {}}
+        specs.append(spec)
+    dep = _dep(d_kind, d_from, d_to, d_label)
+    if dep:
+        if d_level == 0:
+            specs[d_from]['app_deps'] = dep
+        else:
+            lab = ['e1', 'e2'][d_on]
+            specs[d_from]['evo_deps'][lab] = dep
+    # which evolutions are already applied (bit i*2+j)
+    applied = [[lab for j, lab in enumerate(specs[i]['labels']) if applied_mask & (1 << (i * 2 + j))]
+               for i in range(N_APPS)]
+    with _FakeApps(specs) as fa:
+        g = EvolutionGraph()
+        g.process_migration_deps = False
+        idx = [[0, 1, 2], [2, 1, 0], [1, 2, 0]][order]
+        for i in idx:
+            pending = [lab for lab in specs[i]['labels'] if lab not in applied[i]]
+            evs = [Evolution(app_label='vfa%d' % i, label=lab) for lab in pending]
+            if evs:
+                g.add_evolutions(app=fa.apps[i], evolutions=evs, extra_state={'task': i})
+        for i in range(N_APPS):
+            g.mark_evolutions_applied(app=fa.apps[i], evolution_labels=list(applied[i]))
+        g.finalize()
+        out = []
+        for btype, nodes in g.iter_batches():
+            for node in nodes:
+                out.append(node.key)
+    return out, specs, applied
+
+
+def h_evolution_graph(n0: int, n1: int, n2: int, d_kind: int, d_level: int, d_from: int,
+                      d_to: int, d_label: int, d_on: int, order: int, applied_mask: int) -> bool:
+    """Sequence order inside an app, one declared before/after requirement (evolution or app level,
+    targeting an evolution or a whole app), registration order of the apps, already-applied
+    prefixes: every pending evolution exactly once, all requirements between pending units
+    honoured, requirements on applied units ignored without error.
+
+    pre: 0 <= n0 <= 2 and 0 <= n1 <= 2 and 0 <= n2 <= 2 and 0 <= d_kind <= 4 and 0 <= d_level <= 1
+    pre: 0 <= d_from <= 2 and 0 <= d_to <= 2 and d_from != d_to and 0 <= d_label <= 1 and 0 <= d_on <= 1
+    pre: 0 <= order <= 2 and 0 <= applied_mask <= 63
+    pre: hx.in_part(d_kind, d_level, d_from)
+    pre: not hx.excluded(n0, n1, n2, d_kind, d_level, d_from, d_to, d_label, d_on, order, applied_mask)
+    post: _
+    """
+    counts = [n0, n1, n2]
+    # well-formed declarations only: the declaring evolution exists; a named target evolution exists;
+    # applied sets are prefixes of the sequence
+    if d_kind and d_level == 1 and d_on >= counts[d_from]:
+        return hx.verdict(True, False)
+    if d_kind in (1, 3) and d_label >= counts[d_to]:
+        return hx.verdict(True, False)
+    if d_kind and d_level == 0 and counts[d_from] == 0:
+        return hx.verdict(True, False)
+    for i in range(N_APPS):
+        bits = (applied_mask >> (i * 2)) & 3
+        if bits == 2 or (bits & 1 and counts[i] < 1) or (bits & 2 and counts[i] < 2):
+            return hx.verdict(True, False)
+    try:
+        out, specs, applied = _graph_order(n0, n1, n2, d_kind, d_level, d_from, d_to, d_label,
+                                           d_on, order, applied_mask)
+    except CircularDependencyError:
+        return hx.verdict(False, True)      # a single requirement between different apps is satisfiable
+    pending = []
+    for i in range(N_APPS):
+        for lab in specs[i]['labels']:
+            if lab not in applied[i]:
+                pending.append('evolution:vfa%d:%s' % (i, lab))
+    ok = sorted(out) == sorted(pending)                 # each pending unit exactly once
+    pos = dict((k, j) for j, k in enumerate(out))
+    for i in range(N_APPS):                               # sequence order within an app
+        ks = [k for k in pending if k.startswith('evolution:vfa%d:' % i)]
+        for a, b in zip(ks, ks[1:]):
+            ok = ok and pos.get(a, -1) < pos.get(b, -1)
+    if d_kind and ok:
+        src = [k for k in pending if k.startswith('evolution:vfa%d:' % d_from)]
+        if d_level == 1:
+            src = [k for k in src if k.endswith(':' + ['e1', 'e2'][d_on])]
+        dst = [k for k in pending if k.startswith('evolution:vfa%d:' % d_to)]
+        if d_kind in (1, 3):
+            dst = [k for k in dst if k.endswith(':' + ['e1', 'e2'][d_label])]
+        for s in src:
+            for t in dst:
+                if d_kind in (1, 2):
+                    ok = ok and pos[t] < pos[s]      # source runs AFTER the target
+                else:
+                    ok = ok and pos[s] < pos[t]      # source runs BEFORE the target
+    return hx.verdict(ok, bool(d_kind) and len(pending) >= 2)
